@@ -33,7 +33,7 @@ def scenario_tuple(rng, k, first_best):
     return scns
 
 
-SIBLING_ATTRS = ["m", "r", "eps", "obj", "box", "twin", "iters", "inner", "sameproblem"]
+SIBLING_ATTRS = ["m", "r", "eps", "obj", "box", "twin", "iters", "inner", "sameproblem", "rebound"]
 
 
 def sibling_tuple(rng, k, attr):
@@ -68,12 +68,18 @@ def sibling_tuple(rng, k, attr):
             c["iters"] = base["iters"] + 7 * s
         elif attr == "inner":
             c["r"] = base["r"] + (0.0 if rng.random() < 0.5 else 1.0)
-        elif attr == "sameproblem":
+        elif attr in ("sameproblem", "rebound"):
             c["r"] = base["r"] + (0.0 if rng.random() < 0.5 else 1.0)
         scns.append(c)
-    if attr == "sameproblem":
+    if attr in ("sameproblem", "rebound"):
         for c in scns:
             c["share_problem"] = True          # the very same Problem object is handed to every solver of the tuple
+    if attr == "rebound":
+        # solver 0 narrows the box of ITS OWN evolvent half way (public attribute, public SetBounds): the others must not notice
+        lo_a, hi_a = np.array(base["lower"], dtype=float), np.array(base["upper"], dtype=float)
+        scns[0]["rebound_to"] = [[float(v) for v in lo_a + 0.1 * (hi_a - lo_a)], [float(v) for v in hi_a - 0.2 * (hi_a - lo_a)]]
+        for c in scns:
+            c["box"] = "float"                 # bounds held as float64 arrays by the problem object
     return scns
 
 
@@ -171,6 +177,10 @@ class Inst:
     def step(self, kind):
         if self.prob is not None and self.scn.get("share_problem"):
             self.prob.owner = self.sid
+        if kind == "rebound":
+            lo2, hi2 = self.scn["rebound_to"]
+            self.solver.evolvent.SetBounds(np.array(lo2, dtype=float), np.array(hi2, dtype=float))
+            return
         if kind == "local":
             record.run_pattern(self.solver, [["local", 6]])
             self.last_snap = record.snap_solution(self.solver.GetResults())
@@ -382,7 +392,10 @@ def run_case(c):
         k, steps = c["k"], c["steps"]
         scns = sibling_tuple(rng, k, c["attr"])
         progs = [program(steps)] * k
-        if c["attr"] in ("sameproblem", "inner", "twin", "m") and steps == 4:
+        if c["attr"] == "rebound" and steps == 4:
+            progs = [["construct", "iter", "rebound", "solve"], ["construct", "iter", "iter", "solve"]]
+            obs["programs_with_setbounds_on_own_evolvent"] = 1
+        elif c["attr"] in ("sameproblem", "inner", "twin", "m") and steps == 4:
             # one of the solvers polishes its optimum in between (DoLocalRefinement rewrites the best trial in place)
             progs = [["construct", "iter", "local", "solve"], ["construct", "iter", "iter", "solve"]]
             obs["programs_with_local_refinement"] = 1
@@ -464,6 +477,8 @@ def finalize(obs, tier, stats):
     miss = [a for a in SIBLING_ATTRS if not obs.get("interleavings_siblings_" + a)]
     if miss:
         return "sibling tuples never exercised for: %s" % miss, {}
+    if not obs.get("programs_with_setbounds_on_own_evolvent"):
+        return "no interleaved program re-bounded its own evolvent", {}
     if not obs.get("programs_with_local_refinement"):
         return "no interleaved program contained a local refinement", {}
     if not obs.get("tuples_with_first_trial_optimum") or not obs.get("intruders"):
